@@ -53,14 +53,14 @@ let do_initlin (txt : string) : string =
   | _ -> "PARSE-ERR"
 
 (* coreaccept: the premises of determinism_core_accept (proofs/DeterminismAccept.v), all computed on the
-   SOURCE program: no assumed names, rt_syn_ok, core_src_b.  By init_linear_accept these imply
+   SOURCE program: no assumed names, core_src_b (raw_ok holds of every parsed program: ParseRaw).  By init_linear_accept these imply
    init_linear of the checker's output; the decision init_linear_b is printed next to it. *)
 let do_coreaccept (txt : string) : string =
   match parse_string (explode txt) with
   | POk p ->
     (match typecheck p with
      | Accept p' ->
-       if in_fragment_b p' && rt_syn_ok p && core_src_b p
+       if in_fragment_b p' && core_src_b p
        then (if init_linear_b p' then "ACC-IN\tlin=1" else "ACC-IN\tlin=0")
        else (if in_fragment_b p' && init_linear_b p' then "ACC-OUT\tlin=1" else "ACC-OUT\tlin=0")
      | _ -> "REJECT")
